@@ -59,6 +59,7 @@ func init() {
 		}
 		out = append(out,
 			&vexplore.Scenario{Name: "pair-dialed-connection-lost-while-attaching", Mode: "sched", Bound: b, Reset: kit.ResetGlobals, Body: c14.LostWhileAttaching},
+			&vexplore.Scenario{Name: "pair-connection-fails-during-a-write-with-more-queued", Mode: "enum", Reset: kit.ResetGlobals, Body: pairWriteFails, NeedCounters: []string{"queued-messages-reached-the-next-peer-in-order"}},
 			&vexplore.Scenario{Name: "pair-sched-two-connections-at-once", Mode: "sched", Bound: b, Reset: kit.ResetGlobals, Body: func() { pairTwoAtOnce(pair.NewSocket, nil) }},
 			&vexplore.Scenario{Name: "pair1-sched-two-connections-at-once", Mode: "sched", Bound: b, Reset: kit.ResetGlobals, Body: func() { pairTwoAtOnce(pair1.NewSocket, []byte{0, 0, 0, 1}) }},
 			&vexplore.Scenario{Name: "fail-no-peers-with-busy-peers", Mode: "enum", Reset: kit.ResetGlobals, Body: c18.FailNoPeers, NeedCounters: []string{"one-of-two-peers-leaves"}},
@@ -183,6 +184,61 @@ func pairInproc(c ctor) {
 	}
 	kit.Observe("q=%d %q", q, got)
 	kit.Must("Close", func() { _ = a.Close(); _ = b.Close() })
+}
+
+// pairWriteFails: the peer has stopped reading, so one message is stuck in the transport write and
+// 2-3 more wait in the send queue; then the connection fails (the write returns an error) and a new
+// peer connects and reads everything.  Whatever of the waiting messages the new peer is given, it is
+// given in the order they were sent, each at most once - the message whose write failed may be lost,
+// it may not turn up behind the ones sent after it.
+func pairWriteFails() {
+	ki := kit.ChooseFree(3)
+	c := []ctor{pair.NewSocket, xpair.NewSocket, pair1.NewSocket}[ki]
+	strip := []int{0, 0, 4}[ki]
+	n := 3 + kit.ChooseFree(2)
+	s, err := c()
+	must(err, "NewSocket")
+	must(s.SetOption(mangos.OptionWriteQLen, 4), "WriteQLen")
+	ep := vt.Get("pairw")
+	ep.HoldNew = true
+	must(s.Listen("vt://pairw"), "Listen")
+	a := ep.Connect()
+	kit.Quiesce()
+	for i := 0; i < n; i++ {
+		msg := fmt.Sprintf("m%d", i)
+		cl := kit.Start("Send", func() (interface{}, error) { return nil, kit.SendBytes(s, []byte(msg)) })
+		kit.Quiesce()
+		if !cl.Done() || cl.Err != nil {
+			kit.Failf("send-stuck", "Send(%s) with room in the queue: done=%v %s", msg, cl.Done(), kit.ErrName(cl.Err))
+		}
+	}
+	if a.SendersWaiting() != 1 {
+		kit.Failf("setup", "%d writes in progress on the stalled connection", a.SendersWaiting())
+	}
+	a.DropNow()
+	kit.Quiesce()
+	b := ep.Connect()
+	b.Hold(false)
+	kit.Quiesce()
+	last := -1
+	var got []string
+	for _, sm := range b.SentLog() {
+		g := string(sm.Data[strip:])
+		got = append(got, g)
+		var k int
+		if _, err := fmt.Sscanf(g, "m%d", &k); err != nil || k >= n {
+			kit.Failf("invented", "the new peer received %q which was never sent", g)
+		}
+		if k <= last {
+			kit.Failf("reordered", "%d messages sent to a peer that had stopped reading, the connection failed during the write of the first, a new peer connected: it received %q - m%d after m%d", n, got, k, last)
+		}
+		last = k
+	}
+	if len(got) > 0 {
+		kit.Count("queued-messages-reached-the-next-peer-in-order")
+	}
+	kit.Observe("%d %d %q", ki, n, got)
+	kit.Must("Close", func() { _ = s.Close() })
 }
 
 // pairTwoAtOnce: a PAIR socket listens on two addresses and a connection arrives on each at the same
